@@ -262,3 +262,118 @@ func c09Scheduled(tier string, seed int64, idx int, scratch string) rt.CaseResul
 	}
 	return c
 }
+
+func init() {
+	p := Registry["C09"]
+	p.Roles["longhistory"] = Role{N: func(t string) int { return tierN(t, 4, 32) }, Case: c09LongHistory}
+	p.Rule += " Role longhistory: snapshot transactions (and a ReadCommitted one) stay open while one key is overwritten 1100-2600 times (and others a few times), with collector passes + drains at several points: however long the history the open snapshots pin, every pass leaves their reads and key lists unchanged; after they end one more pass leaves one content file per key."
+}
+
+// c09LongHistory: an open snapshot across thousands of versions of one key.
+func c09LongHistory(tier string, seed int64, idx int, scratch string) rt.CaseResult {
+	var c rt.CaseResult
+	rng := seqrun.Rng(seed, "C09l", idx)
+	mode := dbx.Inline
+	if idx%4 == 3 {
+		mode = dbx.Grpc
+	}
+	env, err := dbx.Open(dbx.Options{Mode: mode, Dir: filepath.Join(scratch, "db")})
+	if err != nil {
+		c.Violate("open-failed", err.Error(), nil)
+		return c
+	}
+	defer env.Close()
+	keys := []string{"hot", "warm", "cold"}
+	v0 := map[string][]byte{}
+	for _, k := range keys {
+		v0[k] = seqrun.Content(fmt.Sprintf("lh%d-%s-0", idx, k), 20)
+		env.DB.Set(ctxBg, k, v0[k])
+	}
+	snaps := []fs_db.Tx{}
+	for _, lvl := range []int{2, 3} {
+		tx, err := env.DB.Begin(ctxBg, verif.IsoLevel(lvl))
+		if err != nil {
+			c.Violate("begin-failed", err.Error(), nil)
+			return c
+		}
+		snaps = append(snaps, tx)
+	}
+	if idx%2 == 0 {
+		// one of the snapshots has read before the overwrites, the other has not
+		snaps[0].Get(ctxBg, "hot")
+	}
+	n := 1100 + rng.Intn(tierN(tier, 300, 1500))
+	passes := map[int]bool{500: true, 1000: true, 1023: true, 1024: true, 1025: true, n: true}
+	cur := map[string][]byte{}
+	replay := map[string]any{"seed": seed, "case": idx, "mode": modeName(mode), "overwrites": n}
+	check := func(when string) bool {
+		for si, tx := range snaps {
+			for _, k := range keys {
+				b, gerr := tx.Get(ctxBg, k)
+				c.Evals++
+				if gerr != nil || !bytes.Equal(b, v0[k]) {
+					c.Violate("snapshot-read-changed-by-collection long-history", fmt.Sprintf("%s: the snapshot transaction %d (begun before the overwrites) reads %s (%v) for %q, it must read %s", when, si, seqrun.Describe(b), gerr, k, seqrun.Describe(v0[k])), replay)
+					return false
+				}
+			}
+			ks, kerr := tx.GetKeys(ctxBg)
+			if kerr != nil || fmt.Sprint(ks) != "[cold hot warm]" {
+				c.Violate("snapshot-keys-changed-by-collection long-history", fmt.Sprintf("%s: GetKeys of snapshot %d returns %v (%v)", when, si, ks, kerr), replay)
+				return false
+			}
+		}
+		for _, k := range keys {
+			want := v0[k]
+			if v, ok := cur[k]; ok {
+				want = v
+			}
+			b, gerr := env.DB.Get(ctxBg, k)
+			if gerr != nil || !bytes.Equal(b, want) {
+				c.Violate("read-changed-by-collection long-history reader=autocommit", fmt.Sprintf("%s: %q reads %s (%v), its committed value is %s", when, k, seqrun.Describe(b), gerr, seqrun.Describe(want)), replay)
+				return false
+			}
+		}
+		return true
+	}
+	for i := 1; i <= n; i++ {
+		if i%128 == 0 {
+			rt.Beat()
+		}
+		v := seqrun.Content(fmt.Sprintf("lh%d-hot-%d", idx, i), 6)
+		if err := env.DB.Set(ctxBg, "hot", v); err != nil {
+			c.Violate("write-failed role=longhistory", err.Error(), replay)
+			return c
+		}
+		cur["hot"] = v
+		if i%400 == 0 {
+			w := seqrun.Content(fmt.Sprintf("lh%d-warm-%d", idx, i), 6)
+			env.DB.Set(ctxBg, "warm", w)
+			cur["warm"] = w
+		}
+		if passes[i] {
+			replay["pass_after_overwrites"] = i
+			if err := env.Collect(); err != nil {
+				c.Violate("collector-error", err.Error(), replay)
+				return c
+			}
+			if err := env.Drain(); err != nil {
+				c.Violate("drain-failed", err.Error(), replay)
+				return c
+			}
+			if !check(fmt.Sprintf("after the pass that followed overwrite %d", i)) {
+				return c
+			}
+			c.AddDistinct(fmt.Sprintf("longhistory/%s/pass@%d", modeName(mode), min(i, 1100)))
+		}
+	}
+	for _, tx := range snaps {
+		tx.Rollback(ctxBg)
+	}
+	if quiesce(&c, env, replay) {
+		leakCheck(&c, env, "after-long-history", replay)
+	}
+	if idx == 0 {
+		c.Sample = map[string]any{"overwrites_of_one_key": n, "passes_after": "500, 1000, 1023, 1024, 1025, last"}
+	}
+	return c
+}
